@@ -48,14 +48,14 @@ PROPS = {
         "assumptions": ["condition status is True/False (katib never writes Unknown)"],
     },
     "C01": {
-        "prop_files": ['Katib/Props/C01.lean', 'Katib/Props/C01World.lean'],
+        "prop_files": ['Katib/Props/C01.lean', 'Katib/Props/C01World.lean', 'Katib/Props/C01Parallel.lean'],
         "streams": [('SIM', {'quick': 240, 'thorough': 8000})],
         "rule": "seeded random schedules of the three real reconcilers on the fake client (1-2 experiments, optionally equally named in two namespaces; maxTrialCount 1-4/unset, parallel 1-3, maxFailed, goal, three resume policies, early stopping, retain, push collector), ops = reconciles with per-kind monotone lagging views, write-fault masks, abort points, algorithm reply faults (short/long/error, rules RPC error), job outcomes, metric arrival, early stop, deployment ready; then fault-free settling to quiescence, a quiescence probe, optionally a budget raise and a second settling; every op's write log and the whole store are compared with the Lean model; a case = one schedule; distinct = distinct op sequence",
         "trusted": ["controller-runtime fake client stands in for the kube-apiserver (rv conflicts, status subresource, AlreadyExists)",
                     "fake algorithm / early-stopping / DB-manager services", "typed reads inside a reconcile come from a snapshot (informer cache), run objects are read live"],
         "modelled": ["ReconcileExperiment.Reconcile / ReconcileSuggestion.Reconcile / ReconcileTrial.Reconcile and helpers as Katib.Ctl.expPlan / sugPlan / trialPlan",
                      "API-server semantics as Katib.Ctl.applyCall", "the op/step state machine Katib.Ctl.step"],
-        "level_text": 'C01_total: for every list of simulator operations (reconciles of the three controllers in any order, every typed kind read from an arbitrary earlier snapshot, any fault mask and abort point, any environment events) an unedited experiment with maxTrialCount = m never has more than m trials, its suggestion never more than m assignments nor requests > m, every trial is named by an assignment and assignments only grow by appending (invariant WInv + Past, resourceVersion identifies content); plan-level theorems for the parallel bound and no-create-after-verdict; model tied to the real reconcilers by exact store/write-log correspondence on generated schedules; observed stores judged by the C01 oracle',
+        "level_text": 'C01_total: for every list of simulator operations (reconciles of the three controllers in any order, every typed kind read from an arbitrary earlier snapshot, any fault mask and abort point, any environment events) an unedited experiment with maxTrialCount = m never has more than m trials, its suggestion never more than m assignments nor requests > m, every trial is named by an assignment and assignments only grow by appending (invariant WInv + Past, resourceVersion identifies content); C01_parallel: over every such list the trials of an experiment that are not completed never exceed parallelTrialCount (#trials <= #assignments <= #completed + parallel; completion is permanent, so a stale view only under-counts completed trials); plan-level theorem for no-create-after-verdict; model tied to the real reconcilers by exact store/write-log correspondence on generated schedules; observed stores judged by the C01 oracle',
         "level_note": "trusted: Lean kernel; harness/check; fake client as API server; views monotone per kind; the tie between Lean model and Go controllers is differential (sampling)",
         "assumptions": ["informer caches are monotone per kind", "nobody but the controllers deletes run objects", "algorithm service returns fresh names"],
     },
